@@ -27,6 +27,7 @@ def opaque_sort(name):
 
 
 _tuple_sorts = {}
+NT_DEFS = {}      # namedtuple class name -> [(field, type)], registered by the property modules
 
 
 def _build_json():
@@ -86,7 +87,7 @@ def parse_type(s):
     head, rest = s.split("[", 1)
     assert rest.endswith("]"), s
     rest = rest[:-1]
-    if head in ("opaque", "obj", "enum"):
+    if head in ("opaque", "obj", "enum", "nt"):
         return T(head, name=rest.strip())
     parts, depth, cur = [], 0, ""
     for ch in rest:
@@ -136,6 +137,25 @@ def sort_of(t):
             dt = z3.Datatype("Opt%d" % len(_tuple_sorts))
             dt.declare("none")
             dt.declare("some", ("v", sort_of(t.args[0])))
+            _tuple_sorts[key] = dt.create()
+        return _tuple_sorts[key]
+    if k == "nt":
+        key = repr(t)
+        if key not in _tuple_sorts:
+            fields = NT_DEFS[t.name]
+            dt = z3.Datatype("NT_" + t.name)
+            dt.declare("mk_" + t.name, *[(f"{t.name}_{fn}", sort_of(ft)) for fn, ft in fields])
+            _tuple_sorts[key] = dt.create()
+        return _tuple_sorts[key]
+    if k == "union":
+        key = repr(t)
+        if key not in _tuple_sorts:
+            dt = z3.Datatype("U%d" % len(_tuple_sorts))
+            for i, a in enumerate(t.args):
+                if a.kind == "none":
+                    dt.declare(f"u{len(_tuple_sorts)}_none")
+                else:
+                    dt.declare(f"u{len(_tuple_sorts)}_alt{i}", (f"u{len(_tuple_sorts)}_v{i}", sort_of(a)))
             _tuple_sorts[key] = dt.create()
         return _tuple_sorts[key]
     raise OutOfSubset(f"no z3 sort for type {t!r}")
@@ -299,6 +319,16 @@ class VOpt(V):
         return f"VOpt({self.isnone}, {self.inner})"
 
 
+class VUnion(V):
+    """one of several kinds, decided by path forking when used: alts = [(cond, value)]"""
+
+    def __init__(self, alts):
+        self.alts = alts
+
+    def __repr__(self):
+        return f"VUnion({self.alts})"
+
+
 class VFunc(V):
     def __init__(self, fdef, bound=None, closure=None, name=None):
         self.fdef = fdef
@@ -392,6 +422,27 @@ def to_z3(v, t):
     if k == "tuple" and isinstance(v, VTuple):
         s = sort_of(t)
         return s.constructor(0)(*[to_z3(x, a) for x, a in zip(v.items, t.args)])
+    if k == "nt" and isinstance(v, VTuple) and v.ntname == t.name:
+        s = sort_of(t)
+        return s.constructor(0)(*[to_z3(x, ft) for x, (fn, ft) in zip(v.items, NT_DEFS[t.name])])
+    if k == "union":
+        s = sort_of(t)
+        if isinstance(v, VOpt):
+            return z3.If(v.isnone, to_z3(NONE, t), to_z3(v.inner, t))
+        if isinstance(v, VUnion):
+            r = to_z3(v.alts[-1][1], t)
+            for c, x in reversed(v.alts[:-1]):
+                r = z3.If(c, to_z3(x, t), r)
+            return r
+        for i, a in enumerate(t.args):
+            if a.kind == "none":
+                if v is NONE:
+                    return s.constructor(i)()
+                continue
+            try:
+                return s.constructor(i)(to_z3(v, a))
+            except OutOfSubset:
+                continue
     if k == "opt":
         s = sort_of(t)
         if v is NONE:
@@ -427,6 +478,20 @@ def from_z3(z, t):
     if k == "opt":
         s = sort_of(t)
         return VOpt(s.recognizer(0)(z), from_z3(s.accessor(1, 0)(z), t.args[0]))
+    if k == "nt":
+        s = sort_of(t)
+        fields = NT_DEFS[t.name]
+        return VTuple([from_z3(s.accessor(0, i)(z), ft) for i, (fn, ft) in enumerate(fields)], t.name,
+                      [fn for fn, ft in fields])
+    if k == "union":
+        s = sort_of(t)
+        alts = []
+        for i, a in enumerate(t.args):
+            if a.kind == "none":
+                alts.append((s.recognizer(i)(z), NONE))
+            else:
+                alts.append((s.recognizer(i)(z), from_z3(s.accessor(i, 0)(z), a)))
+        return VUnion(alts)
     raise OutOfSubset(f"cannot read {t!r} from z3")
 
 
@@ -445,7 +510,7 @@ def to_json(v):
         return J.jstr(v.z)
     if isinstance(v, (VList, VTuple)):
         if not v.items:
-            return J.jlist(z3.Empty(z3.SeqSort(Jr)))
+            return J.jlist(z3.Empty(z3.SeqSort(J)))
         units = [z3.Unit(to_json(x)) for x in v.items]
         return J.jlist(units[0] if len(units) == 1 else z3.Concat(*units))
     if isinstance(v, VSeq) and v.elem.kind == "json":
@@ -519,6 +584,9 @@ def fresh(t, name, namer, objfactory=None):
             items.append(v)
             cons += c2
         return VTuple(items), cons
+    if k in ("nt", "union"):
+        z = z3.Const(namer(name), sort_of(t))
+        return from_z3(z, t), cons
     if k == "obj":
         if objfactory is None:
             raise OutOfSubset(f"no object factory for {t!r}")
